@@ -467,6 +467,12 @@ func c17Run(ctx *core.Ctx, idx int, dotu bool, steps int) core.Result {
 			if !walk(fid, f) {
 				continue
 			}
+			// the fid may be open in any mode when the wstat arrives (the POSIX truncate of the path does not care)
+			if om := r.Intn(5); om > 0 {
+				if o := rw.rpc(&wire.Msg{Type: wire.Topen, Fid: fid, Mode: uint8(om - 1)}); o != nil && o.Type == wire.Ropen {
+					argc += ";fid-open-" + []string{"OREAD", "OWRITE", "ORDWR", "OEXEC"}[om-1]
+				}
+			}
 			st := noTouch()
 			st.Length = uint64(n)
 			rep = rw.rpc(&wire.Msg{Type: wire.Twstat, Fid: fid, Stat: st})
@@ -500,6 +506,11 @@ func c17Run(ctx *core.Ctx, idx int, dotu bool, steps int) core.Result {
 			op, argc = "mtime", "set"
 			if !walk(fid, f) {
 				continue
+			}
+			if om := r.Intn(5); om > 0 {
+				if o := rw.rpc(&wire.Msg{Type: wire.Topen, Fid: fid, Mode: uint8(om - 1)}); o != nil && o.Type == wire.Ropen {
+					argc += ";fid-open-" + []string{"OREAD", "OWRITE", "ORDWR", "OEXEC"}[om-1]
+				}
 			}
 			st := noTouch()
 			st.Mtime = t
